@@ -15,8 +15,8 @@ LEVEL = "exploration"
 RULE = ("hostile inputs - random bytes (several distributions, 0..64 KiB), valid streams with bit flips / byte inserts / deletes "
         "/ splices / truncation, and structure-aware hostile streams from the independent wire encoder (declared frame, row and "
         "string lengths up to 2^63, table sizes up to 2^32, 10^5 entries, quoted triples nested past the protobuf recursion "
-        "limit, options rows in odd places, 10^5 empty frames, invalid UTF-8, unknown fields, groups) - are fed from BytesIO and "
-        "from real files to the six parse entry points inside a watchdogged child process with faulthandler. Per input the "
+        "limit, options rows in odd places, 10^5 empty frames, invalid UTF-8, unknown fields, groups) - are fed from BytesIO, "
+        "real files and non-seekable raw / buffered sources to the six parse entry points inside a watchdogged child process with faulthandler. Per input the "
         "child journals start/end, outcome, CPU time, a logical step count (sys.monitoring PY_START inside pyjelly) and the "
         "growth of the resident high-water mark. Violations: interpreter killed by a signal; a non-Exception BaseException; "
         "CPU > 2 s + 1 ms/byte or steps > 20000 + 400/byte (re-checked alone with a 10x budget before being believed); "
@@ -187,7 +187,8 @@ def make_inputs(rng, n: int) -> list:
             cls = "hostile"
         entries = ["generic:flat"] + rng.sample(ENTRY_NAMES[1:], 2)
         out.append({"i": k, "class": cls, "name": name, "hex": data.hex(), "entries": entries,
-                    "source": "file" if rng.random() < .3 else "bytesio", "len": len(data)})
+                    "source": rng.choice(["file", "file", "bytesio", "bytesio", "bytesio", "raw-nonseekable", "buffered-nonseekable"]),
+                    "len": len(data)})
     return out
 
 
@@ -233,7 +234,9 @@ def judge_record(rec: dict, item: dict):
         where = rec.get("exc_where", [])
         # innermost frame decides: a MemoryError out of protobuf's input.read(declared_length) is CPython's buffered
         # reader refusing an address-space reservation under RLIMIT_AS (see assumptions), not a pyjelly allocation
-        if where and where[-1].startswith("pyjelly"):
+        # ... and so is the same read(declared_length) forwarded by pyjelly's own thin reader shim: the failing statement
+        # is a read() on the caller's input object, not an allocation of pyjelly's
+        if where and where[-1].startswith("pyjelly") and ".read(" not in rec.get("exc_line", ""):
             return "resource-exhaustion-in-pyjelly", f"{rec['entry']} raised {rec['exc']} from {where[-2:]}"
     if rec["rss_growth_kb"] > b["rss_kb"]:
         return "resident-memory", (f"{rec['entry']}: resident high-water grew by {rec['rss_growth_kb'] // 1024} MiB on a "
